@@ -84,6 +84,9 @@ pub enum AgendaTrace {
         /// it again — 1-3 WITHOUT reset, so the no-loop record must carry over
         #[serde(default)]
         between: u8,
+        /// 1: the engine object is built with `Default::default()` instead of `new()`
+        #[serde(default)]
+        ctor: u8,
     },
 }
 
@@ -436,7 +439,11 @@ fn cond_value(r: &BRule) -> String {
     }
 }
 
-fn run_b(engine: Engine, rules: &[BRule], x0: i64, nfacts: u8, second_call: bool, between: u8, obs: &mut Obs) -> Result<(), Violation> {
+#[allow(clippy::too_many_arguments)]
+fn run_b(engine: Engine, rules: &[BRule], x0: i64, nfacts: u8, second_call: bool, between: u8, ctor: u8, obs: &mut Obs) -> Result<(), Violation> {
+    if ctor == 1 {
+        obs.count("probe.engine_built_with_default");
+    }
     clock::install(1_700_000_000_000);
     clock::set_mono_tick_pattern(vec![0, 0, 1]);
     let n = rules.len().max(1) as u64;
@@ -507,7 +514,7 @@ fn run_b(engine: Engine, rules: &[BRule], x0: i64, nfacts: u8, second_call: bool
     };
     match engine {
         Engine::Plain => {
-            let mut e = ReteUlEngine::new();
+            let mut e = if ctor == 1 { ReteUlEngine::default() } else { ReteUlEngine::new() };
             for (i, r) in rules.iter().enumerate() {
                 let (field, op) = cond_ops(r.cond);
                 let node = ReteUlNode::UlAlpha(AlphaNode { field: field.to_string(), operator: op.to_string(), value: cond_value(r) });
@@ -554,7 +561,7 @@ fn run_b(engine: Engine, rules: &[BRule], x0: i64, nfacts: u8, second_call: bool
             }
         }
         Engine::Typed => {
-            let mut e = TypedReteUlEngine::new();
+            let mut e = if ctor == 1 { TypedReteUlEngine::default() } else { TypedReteUlEngine::new() };
             for (i, r) in rules.iter().enumerate() {
                 let (field, op) = cond_ops(r.cond);
                 let node = ReteUlNode::UlAlpha(AlphaNode { field: field.to_string(), operator: op.to_string(), value: cond_value(r) });
@@ -594,7 +601,7 @@ fn run_b(engine: Engine, rules: &[BRule], x0: i64, nfacts: u8, second_call: bool
             }
         }
         Engine::Incremental => {
-            let mut e = IncrementalEngine::new();
+            let mut e = if ctor == 1 { IncrementalEngine::default() } else { IncrementalEngine::new() };
             for (i, r) in rules.iter().enumerate() {
                 let (field, op) = cond_ops(r.cond);
                 let node = ReteUlNode::UlAlpha(AlphaNode { field: field.to_string(), operator: op.to_string(), value: cond_value(r) });
@@ -839,6 +846,7 @@ impl World for AgendaWorld {
                 facts: 1 + rng.below(3) as u8,
                 second_call: rng.chance(1, 2),
                 between: *rng.pick(&[0u8, 0, 1, 2, 3]),
+                ctor: rng.below(2) as u8,
             }
         }
     }
@@ -856,9 +864,9 @@ impl World for AgendaWorld {
                 obs.faulty = ops.iter().any(|o| matches!(o, AOp::Add(a) | AOp::Create(a) if a.clock_step_ns <= 1));
                 run_a(ops, obs)
             }
-            AgendaTrace::B { engine, rules, x0, facts, second_call, between, .. } => {
+            AgendaTrace::B { engine, rules, x0, facts, second_call, between, ctor, .. } => {
                 obs.faulty = true;
-                run_b(*engine, rules, *x0, *facts, *second_call, *between, obs)
+                run_b(*engine, rules, *x0, *facts, *second_call, *between, *ctor, obs)
             }
         }
     }
@@ -899,8 +907,8 @@ impl World for AgendaWorld {
                     out.push(AgendaTrace::A { hash_seed: 1, ops: ops.clone() });
                 }
             }
-            AgendaTrace::B { hash_seed, engine, rules, x0, facts, second_call, between } => {
-                let mk = |rules: Vec<BRule>, x0: i64, facts: u8, second_call: bool| AgendaTrace::B { hash_seed: *hash_seed, engine: *engine, rules, x0, facts, second_call, between: *between };
+            AgendaTrace::B { hash_seed, engine, rules, x0, facts, second_call, between, ctor } => {
+                let mk = |rules: Vec<BRule>, x0: i64, facts: u8, second_call: bool| AgendaTrace::B { hash_seed: *hash_seed, engine: *engine, rules, x0, facts, second_call, between: *between, ctor: *ctor };
                 for v in drop_chunks(rules) {
                     if !v.is_empty() {
                         out.push(mk(v, *x0, *facts, *second_call));
